@@ -233,7 +233,12 @@ class Mode:
                 from . import paths as P
 
                 fs = ex.fixed + P.pc_formulas(ex.pc)
-                r, model, dt = P.check_sat(fs)
+                cache = ex.__dict__.setdefault("_cx", {})  # per path: feasibility and one concrete point, shared by its obligations
+                if cache.get("n") != len(ex.pc):
+                    cache.clear()
+                    cache["n"] = len(ex.pc)
+                    cache["sat"] = P.check_sat(fs)
+                r, model, dt = cache["sat"]
                 if r == "unsat":
                     return self._rec(name, "discharged", "z3", dt, detail="path infeasible", vacuous=True)
                 from . import subst
@@ -243,7 +248,16 @@ class Mode:
                     return self._rec(name, "discharged", "polyid+path-equations", time.time() - t, detail="%d equation(s) of the path substituted" % nsub)
                 if r != "sat":
                     return self._rec(name, "undecided", "z3", dt, detail="values differ on a path whose feasibility is unknown")
-                real = P.numeric_counterexample(fs, ("atom", alg.v_sub(vg, ve), "=="), model)
+                concl = ("atom", alg.v_sub(vg, ve), "==")
+                real = None
+                if cache.get("env") is not None and P.check_point(fs, concl, cache["env"]):
+                    real = cache["env"]
+                    P.LAST_DIFF[0] = 0.0
+                elif getattr(self, "_ncx", 0) < 8:
+                    self._ncx = getattr(self, "_ncx", 0) + 1  # budget of concrete-point searches per task
+                    real = P.numeric_counterexample(fs, concl, model)
+                    if real is not None:
+                        cache["env"] = real
                 if real is None:
                     st, _m, dt2 = P.check_implies(fs, ("atom", diff, "=="))
                     if st == "discharged":
@@ -675,6 +689,7 @@ def _explore_harness(h, shape, M):
     stack = [[]]
     allres = []
     npaths = 0
+    t_start = time.time()
     while stack:
         prefix = stack.pop()
         ex = P.Explorer()
@@ -693,8 +708,14 @@ def _explore_harness(h, shape, M):
         for i in range(len(prefix), len(ex.trace)):
             stack.append(ex.trace[:i] + [not ex.trace[i]])
         npaths += 1
-        if npaths > 64:
-            raise alg.Undecided("more than 64 paths through the harness")
+        if stack and sum(1 for r in allres if r["status"] == "failed") >= 40:
+            break  # the contract is already refuted on the explored paths; further paths add nothing to the verdict
+        if stack and (npaths >= 1024 or (npaths >= 64 and time.time() - t_start > 45.0)):
+            # budget exhausted: what the explored paths established (including failed obligations) is kept, the rest
+            # is reported as undecided - never as held
+            allres.append({"name": "paths/all-explored", "status": "undecided", "backend": "z3", "secs": 0.0,
+                           "detail": "%d paths explored, %d alternatives left unexplored (budget: 64 paths, then 45 s / 1024 paths)" % (npaths, len(stack))})
+            break
     M.results = allres
 
 
